@@ -114,6 +114,32 @@ def _seed_worker(args):
     return acc.result()
 
 
+def _composed_worker(args):
+    """Inputs obtained by composing every object within one deviation of every seed object (values the byte
+    families do not reach: boundary integers, every enum member, empty / maximal lists)."""
+    qn, idx = args
+    acc = core.Acc()
+    from mc import objects
+    cls = classes.class_by_name(qn)
+    objs = objects.seed_objects().get(cls, [])
+    if idx >= len(objs):
+        return acc.result()
+    import enum
+    if isinstance(objs[idx], enum.Enum):
+        return acc.result()
+    with core.watchdog(900):
+        for path, o, stats in objects.neighbourhood(objs[idx], 1, False, 3000):
+            try:
+                data = bytes(o.compose())
+            except Exception:  # noqa
+                continue
+            if c01.needs_terminator(cls):
+                continue
+            if check_input(acc, cls, qn, data, ('composed',) + tuple(path)):
+                acc.state(core.h64(qn, data))
+    return acc.result()
+
+
 # ---- targeted non-canonical generators ---------------------------------------------------------------------
 def date_spellings():
     layouts = ['Wed, 21 Oct 2015 07:28:00 %s', 'Wednesday, 21-Oct-15 07:28:00 %s', 'Wed Oct 21 07:28:00 2015 %s',
@@ -230,13 +256,20 @@ def run(ctx):
         if bytefam.is_texty(ss):
             items.append((qn, 'tokens', 0, thorough))
     ctx.pmap(_seed_worker, items)
+    from mc import objects
+    so = objects.seed_objects()
+    citems = []
+    for cls in classes.parsable_classes():
+        for i in range(len(so.get(cls, []))):
+            citems.append((classes.qualname(cls), i))
+    ctx.pmap(_composed_worker, citems)
     ctx.pmap(_targeted_worker, [('dates', 0, 1), ('txt', 0, 1), ('scsv', 0, 1), ('mysql', 0, 1)] +
              [('dnskey', p, 32) for p in range(32)])
     ctx.assumptions += ['only inputs the parser accepts are subject to the property; rejected inputs and '
                         'undocumented exceptions belong to C02',
                         'equality = equal canonical dumps; aware datetimes compare by instant']
     return ctx.finish(rule='every ACCEPTED input among: seeds, all truncations, single-byte substitutions (B9 quick / '
-                           '256 thorough), deletions, B5 insertions, short strings, token sequences, cross-class seeds; '
+                           '256 thorough), deletions, B5 insertions, short strings, token sequences, cross-class seeds, compositions of every object within one deviation of the seeds; '
                            'plus 54 date spellings x 5 classes, TXT partitions, SCSV placements (all permutations of '
                            '<=3 suites + SCSVs), all 2^16 DNSKEY flag words, MySQL words with <=2 flipped bits; '
                            'states = distinct accepted inputs')
